@@ -200,12 +200,14 @@ the SRT, WebVTT, SSA and STL reader loops; `2a237d5`: one line at the top of the
 "plausible refactoring" seeds in five batches, 96 mutation-testing style changes in three batches (four per source file or
 area, including the command-line tool), 36 mutants aimed at one property each, 22 mutants of functions no earlier round
 had touched, and 120 "subtle" seeds in three batches that only show under rare conditions (the second and third batch were given
-the summaries of the earlier ones and asked for something else). 318 of them break a property as stated and all 318 are
-caught by the quick tier (the CLI mutants by C07, which drives the tool). Three are not flagged, and should not
-be: C06-c is an equivalent change (it only merges two runs with identical attributes); P6-2 changes the handling of X/28
-format bits the statement of C06 does not cover (character-set *designation* through X/28 / M/29 is modelled since the
-sixth batch, family D); R1-2 changes a helper (`WebVTTTimestampMap.Offset`) that nothing in the library calls and no
-statement mentions. About 115 of the 318 were missed or barely caught when first run (or would have been, judging
+the summaries of the earlier ones and asked for something else). 318 of them break a property as stated on the current tree and all 318 are
+caught by the quick tier (the CLI mutants by C07, which drives the tool; `seeded/regression_final.txt` is the last run of
+all of them). Three are not flagged, and should not be: C06-c is an equivalent change (it only merges two runs with
+identical attributes); R1-2 changes a helper (`WebVTTTimestampMap.Offset`) that nothing in the library calls and no
+statement mentions; C19-b (an inconsistent sort comparator in `WriteToSSA`) stopped being a violation when the repair
+`0f38ecf` sorted the map keys first - its own demonstration passes on the current tree. P6-2 (wrong bits of an X/28 /
+M/29 designation), which was outside the model for most of the work, is caught since family D models the designation.
+About 115 of the 318 were missed or barely caught when first run (or would have been, judging
 from their description, and were pre-empted) - 24, 15 and 26 of the three times 40 subtle ones, which is what those
 batches were for; every miss
 was answered by widening a *generator* or the *model* (never by loosening an oracle, never by special-casing the seeded
